@@ -49,6 +49,24 @@ impl<T: PestParser> Parser for T {
             "parts of the input where not parsed"
         );
         pairs.next_back(); // remove EOI
+
+        // numerals and arities that do not fit the integer types are an error, not a crash
+        for pair in pairs.clone().flatten() {
+            let fits = match format!("{:?}", pair.as_rule()).as_str() {
+                "integer" | "numeral" => pair.as_str().parse::<isize>().is_ok(),
+                "arity" => pair.as_str().parse::<usize>().is_ok(),
+                _ => true,
+            };
+            if !fits {
+                return Err(pest::error::Error::new_from_span(
+                    pest::error::ErrorVariant::CustomError {
+                        message: "number out of range".to_string(),
+                    },
+                    pair.as_span(),
+                ));
+            }
+        }
+
         Ok(Self::translate_pairs(pairs))
     }
 }
